@@ -1,13 +1,95 @@
 /-
-Oracle ops for the `quote` family.  Owned by the slice that models it; see AGENT_GUIDE.md.
+Oracle ops for the `quote` family (C11).  Byte strings are lowercase hex, the empty string is `-`;
+booleans are `0`/`1`; numbers are hex.  Error classes: `ok utf8 char esc eof bug`
+(ErrInvalidUTF8, invalid character, invalid escape sequence / surrogate pair, io.ErrUnexpectedEOF,
+the unreachable `panic("BUG…")` branch).
+
+  quote need <h>                                   → 0|1                       jsonwire.NeedEscape
+  quote q <html> <js> <allowInvalid> <h>           → <hexout> <err>            jsonwire.AppendQuote(nil, h, flags)
+  quote unq <h>                                    → <hexout> <err>            jsonwire.AppendUnquote(nil, h)
+  quote reformat <html> <js> <allowInvalid> <preserveRaw> <h>
+                                                   → <hexout> <n> <err>        jsonwire.ReformatString(nil, h, flags)
+  quote cs <validateUTF8> <h>                      → <n> <err> <canonical 0|1> jsonwire.ConsumeString (+ ValueFlags.IsCanonical;
+                                                                               the flag is only compared when err = ok)
+  quote esc <c>                                    → table entry escapeASCII[c] (c < 0x80), `ERR range` otherwise
+  quote hex4 <h>                                   → <v hex> <ok 0|1>          parseHexUint16
+  quote pfx <lower> <h>                            → 0|1                       hasEscapedUTF16Prefix
+  quote eascii <c> | euni <r> | eu16 <x>           → <hexout>                  appendEscapedASCII / Unicode / UTF16
+  quote canon <h>                                  → <hexout>                  Spec.canonQuote (RFC 8785 form of well-formed h)
+  quote lossy <h>                                  → <hexout> <count>          Spec.lossy (each ill-formed byte → U+FFFD), #ill-formed bytes
 -/
 import JsonV.Oracle.Util
+import JsonV.Model.Quote
+import JsonV.Spec.StringSpec
 
 namespace JsonV.Oracle.Quote
-open JsonV JsonV.Oracle
+open JsonV JsonV.Oracle JsonV.Model.Quote
+
+def errStr : Err → String
+  | .ok => "ok"
+  | .invalidUTF8 => "utf8"
+  | .invalidChar => "char"
+  | .invalidEscape => "esc"
+  | .unexpectedEOF => "eof"
+  | .bug => "bug"
+
+def flag (s : String) : Option Bool := if s == "1" then some true else if s == "0" then some false else none
 
 def handle (op : String) (args : List String) : String :=
   match op, args with
-  | _, _ => "ERR unimplemented"
+  | "need", [h] =>
+    match bytesOfHex h with
+    | some b => boolStr (needEscape b)
+    | none => badArgs
+  | "q", [html, js, allow, h] =>
+    match flag html, flag js, flag allow, bytesOfHex h with
+    | some html, some js, some allow, some b =>
+      let r := appendQuote { html := html, js := js, allowInvalid := allow } b
+      s!"{hexOfBytes r.1} {errStr r.2}"
+    | _, _, _, _ => badArgs
+  | "unq", [h] =>
+    match bytesOfHex h with
+    | some b => let r := appendUnquote b; s!"{hexOfBytes r.1} {errStr r.2}"
+    | none => badArgs
+  | "reformat", [html, js, allow, pres, h] =>
+    match flag html, flag js, flag allow, flag pres, bytesOfHex h with
+    | some html, some js, some allow, some pres, some b =>
+      let r := reformatString { html := html, js := js, allowInvalid := allow, preserve := pres } b
+      s!"{hexOfBytes r.1} {hexOfNat r.2.1} {errStr r.2.2}"
+    | _, _, _, _, _ => badArgs
+  | "cs", [v, h] =>
+    match flag v, bytesOfHex h with
+    | some v, some b => let r := consumeString v b; s!"{hexOfNat r.1} {errStr r.2.1} {boolStr (!r.2.2)}"
+    | _, _ => badArgs
+  | "esc", [c] =>
+    match natOfHex c with
+    | some c => if c < 0x80 then toString (escapeASCII c) else "ERR range"
+    | none => badArgs
+  | "hex4", [h] =>
+    match bytesOfHex h with
+    | some b => match parseHexUint16 b with
+      | some v => s!"{hexOfNat v} 1"
+      | none => "0 0"
+    | none => badArgs
+  | "pfx", [lower, h] =>
+    match flag lower, bytesOfHex h with
+    | some l, some b => boolStr (hasEscapedUTF16Prefix b l)
+    | _, _ => badArgs
+  | "eascii", [c] => match natOfHex c with
+    | some c => hexOfBytes (appendEscapedASCII c)
+    | none => badArgs
+  | "euni", [r] => match natOfHex r with
+    | some r => hexOfBytes (appendEscapedUnicode r)
+    | none => badArgs
+  | "eu16", [x] => match natOfHex x with
+    | some x => hexOfBytes (appendEscapedUTF16 x)
+    | none => badArgs
+  | "canon", [h] => match bytesOfHex h with
+    | some b => hexOfBytes (JsonV.Spec.StringSpec.canonQuote b)
+    | none => badArgs
+  | "lossy", [h] => match bytesOfHex h with
+    | some b => s!"{hexOfBytes (JsonV.Spec.StringSpec.lossy b)} {hexOfNat (JsonV.Spec.StringSpec.illFormedCount b)}"
+    | none => badArgs
+  | _, _ => badArgs
 
 end JsonV.Oracle.Quote
